@@ -1,5 +1,5 @@
 (** Lemmas about the index computations of Wrapper/Run.v: row-major ravel,
-    and the closed forms of every wview the template creates. *)
+    and the closed forms of every view the template creates. *)
 From Coq Require Import List Arith ZArith Lia Bool.
 From OW Require Import Base.Interleave Wrapper.Spec Wrapper.Run.
 Import ListNotations.
